@@ -151,6 +151,9 @@ def handle (w : W) (op : String) (args : List Json) : W × Json :=
     let s2 := Conc.finish (jvariant v) s1
     (w, Json.arr #[Json.arr tr.toArray, resJson s2.t0.res, resJson s2.t1.res, optJson crefJson s2.cache,
                    s2.fresh0, s2.boundX0, s2.boundX1, Conc.bothDone s2, Conc.coherent s0 s2])
+  | "addmany", [k, rs] =>          -- store.update([...]): the bulk insertion inherited from AbstractObjectStore
+    let (w', out) := addMany w (jnat k) ((jarr rs).map jnat)
+    (w', outJson out)
   | _, _ =>
     match parseOp op args with
     | some o => let (w', out) := step w o; (w', outJson out)
